@@ -15,6 +15,11 @@ def build(chk):
         if idx % 2 == 0:
             TC.drain(runner)
         recs.append(TS.finish(runner, 'coop-term' if idx % 3 != 0 else 'coop'))
+    # adaptive segment sizing on: whatever the controller computes, no segment may exceed the peer's MRU
+    import check_C14
+    for (mru, length) in ([(1000, 30000), (500, 9000), (10239, 40000)] if chk.quick()
+                          else [(m, n) for m in (1, 100, 1000, 5000, 10239, 10240, 20000) for n in (3000, 30000, 90000)]):
+        recs.append(check_C14.modulated(chk, chk.rng, mru, length, chk.rng.choice([1, 2]))[0])
     return recs
 
 
